@@ -227,6 +227,8 @@ def World.onObs1 (w : World) (toks : List String) : World :=
         let single := ((w.entriesOf full).map (fun (e : Entry) => e.cid)).eraseDups.length ≤ 1
         if single && iv != full.drop (total - want) then
           w.fail "C15" "recent" s!"peer {p}: single-writer log, Load({n}) lists {showNums iv}, the {want} most recent are {showNums (full.drop (total - want))}" else w
+  -- (only the first observation after the restart is compared with the persisted log)
+  let w := { w with limited := w.limited.filter (fun x => x.1 != w.key p) }
   -- a limited load of a multi-head log may keep different older entries than the model's unbounded fetch:
   -- the model then continues from the implementation's listing
   let partialLoad := match lim with | some (_, n, full) => n > 0 && n.toNat < full.length | none => false
@@ -497,6 +499,32 @@ def World.step (w : World) (line : String) : World :=
       let missing := w.acked.filter (fun n => !o.values.contains n)
       if missing.isEmpty then w else
         w.fail "C12" "deaf" s!"peer {p} lacks {showNums (sortNums missing)}: valid messages after malformed ones were not handled") w
+  | "cacks" =>
+    -- concurrent writers: the entries were declared in log (= append) order just before this line
+    let p := peerNum (toks.getD 1 "")
+    let acks := commaList (arg toks "acks")
+    let created := sortNums (acks.filter (· != "err") |>.map entryNum)
+    let w := if acks.contains "err" then w.fail "C17" "ack" s!"peer {p}: a concurrent write failed" else w
+    let w := if created.eraseDups.length != created.length then
+        w.fail "C17" "distinct" s!"peer {p}: two concurrent writes were acknowledged with the same entry ({arg toks "acks"})" else w
+    created.foldl (fun w n => { w with acked := n :: w.acked }.modelAdd p n) w
+  | "final17" =>
+    -- C17: after close, reopen and load every acknowledged concurrent write is still there
+    w.stores.foldl (fun w (p, _) => if p ≥ 1000 then w else
+      let o := w.obsOf p
+      if !o.seen then w else
+      let missing := w.acked.filter (fun n => !o.values.contains n)
+      if missing.isEmpty then w else
+        w.fail "C17" "lost" s!"peer {p} lost acknowledged writes {showNums (sortNums missing)} across restart") w
+  | "final18" =>
+    -- C18: the directory is reopenable with all acknowledged data: the peer's own acknowledged writes
+    let p := peerNum (toks.getD 1 "")
+    let o := w.obsOf p
+    if !o.seen then w else
+    let mine := w.acked.filter (fun n => match w.entry n with | some e => e.ident == p && e.logId == w.curDb + 1 | none => false)
+    let missing := mine.filter (fun n => !o.values.contains n)
+    if missing.isEmpty then w else
+      w.fail "C18" "reopen" s!"peer {p}: after Close and reopen its acknowledged writes {showNums (sortNums missing)} are gone"
   | "final11" =>
     -- C11: after aborted requests, an uncancelled request for the same or newer heads made everything visible
     w.stores.foldl (fun w (p, _) => if p ≥ 1000 then w else
